@@ -173,7 +173,10 @@ class Run:
             print(l)
         if error:
             print("MACHINERY-ERROR property=%s %s" % (self.pid, str(error)[:3000]))
-            return 2
+            if not seen:
+                return 2
+            # violations were demonstrated before the machinery gave up (e.g. a vacuity guard tripping because every
+            # recorded trace of a broken tree is rejected): the violations stand
         print("%s %s tier=%s seed=%s: tlc states=%d transitions=%d, impl cases=%d (distinct %d), traces=%d, "
               "violations=%d, known=%d, %.1fs" % ("FAIL" if seen else "OK", self.pid, self.tier, self.seed, self.states,
                                                  self.transitions, self.evaluations, len(self.case_keys), self.traces,
